@@ -1,10 +1,11 @@
 /-
   C11 — a rejected or unacknowledged request never advances the client's view.
-  STATEMENTS (to be proved; file moves to NxsModel/Props/C11.lean when no `sorry` is left).
+  Property theorems only (helper lemmas in Lemmas/Config.lean).
   Per request the device acknowledges, rejects with a non-zero code, applies but loses the ACK, or
   loses the request (`Config.Outcome`); the device advertises ACK support.
 -/
 import NxsModel.Config
+import NxsModel.Lemmas.Config
 namespace Nxs.C11
 open Nxs Nxs.Config
 
@@ -16,17 +17,20 @@ def after (d0 : Device) (flags : Nat) (ops : List Op) : Client × Device × List
 
 /-- a write returns within two ACK timeouts (tenths of a second), whatever the device does -/
 theorem bounded (c : Client) (d : Device) (oDiv oEn : Outcome) :
-    (channelsWrite c d oDiv oEn).2.2.time ≤ 20 := sorry
+    (channelsWrite c d oDiv oEn).2.2.time ≤ 20 :=
+  channelsWrite_time c d oDiv oEn
 
 /-- if the enable request is not positively acknowledged, what the client reports for the enable
     state (`ch_is_enabled` and its copy of the description) stays as it was -/
 theorem failed_keeps_view_en (c : Client) (d : Device) (oDiv oEn : Outcome) (ha : c.ackSupported = true)
     (hf : oEn ≠ .ack) :
-    (channelsWrite c d oDiv oEn).1.enNow = c.enNow ∧ (channelsWrite c d oDiv oEn).1.copyEn = c.copyEn := sorry
+    (channelsWrite c d oDiv oEn).1.enNow = c.enNow ∧ (channelsWrite c d oDiv oEn).1.copyEn = c.copyEn :=
+  channelsWrite_failed_en c d oDiv oEn ha hf
 
 theorem failed_keeps_view_div (c : Client) (d : Device) (oDiv oEn : Outcome) (ha : c.ackSupported = true)
     (hf : oDiv ≠ .ack) :
-    (channelsWrite c d oDiv oEn).1.divNow = c.divNow ∧ (channelsWrite c d oDiv oEn).1.copyDiv = c.copyDiv := sorry
+    (channelsWrite c d oDiv oEn).1.divNow = c.divNow ∧ (channelsWrite c d oDiv oEn).1.copyDiv = c.copyDiv :=
+  channelsWrite_failed_div c d oDiv oEn ha hf
 
 /-- after ANY history of acknowledged, rejected, lost and half-lost requests, the client's report
     is the last state the device acknowledged: its copy always equals the acknowledged vector, and
@@ -36,7 +40,8 @@ theorem view_is_last_acked (d0 : Device) (flags : Nat) (ops : List Op) (hd : WFD
     let r := after d0 flags ops
     r.1.copyEn = r.1.enNow ∧ r.1.copyDiv = r.1.divNow ∧
     (r.1.enResync = false → r.2.1.en = r.1.enNow) ∧
-    (Info.divSupported flags = true → r.1.divResync = false → r.2.1.div = r.1.divNow) := sorry
+    (Info.divSupported flags = true → r.1.divResync = false → r.2.1.div = r.1.divNow) :=
+  c11_view d0 flags ops hd ha
 
 /-- … and a later write that the device acknowledges brings device and client to the requested state -/
 theorem later_write_converges (d0 : Device) (flags : Nat) (ops : List Op) (hd : WFDev d0)
@@ -44,7 +49,8 @@ theorem later_write_converges (d0 : Device) (flags : Nat) (ops : List Op) (hd : 
     let r := after d0 flags (ops ++ [.write .ack .ack])
     r.2.1.en = r.1.enNew ∧ r.1.enNow = r.1.enNew ∧ r.1.copyEn = r.1.enNew ∧
     (Info.divSupported flags = true →
-      r.2.1.div = r.1.divNew ∧ r.1.divNow = r.1.divNew ∧ r.1.copyDiv = r.1.divNew) := sorry
+      r.2.1.div = r.1.divNew ∧ r.1.divNow = r.1.divNew ∧ r.1.copyDiv = r.1.divNew) :=
+  c11_converges d0 flags ops hd ha
 
 /-- non-vacuity: the historical defect (applied, ACK lost, then a single-channel change) converges -/
 example : (after ⟨[false, false, false], [0, 0, 0]⟩ 3
